@@ -83,6 +83,25 @@ def register(reg):
                           ],
                           frame=["self.caps._s"], **common))
 
+    reg.add_fn(FnContract(key=f"{RMOD}:ProxiedRegion.resolve_cap", qualname="ProxiedRegion.resolve_cap", cls="ProxiedRegion",
+                          params={"url": "Str", "consume": "Bool"}, param_names=["url", "consume"], returns="Opt[Tuple[Opaque:Any,Str,Opaque:Any]]",
+                          externals={"sorted": {"returns": "Opaque:StrList", "ignore_args": True, "doc": "cap URLs, longest first"},
+                                     "self._caps_url_lookup.keys": {"returns": "Opaque:StrList", "doc": "reverse index keys"},
+                                     "self.caps.popall": {"returns": "Opaque:CapList", "record_as": "popall", "doc": "all entries of a name"},
+                                     "*.remove": {"record_as": "remove", "may_raise": "ValueError", "doc": "list.remove"},
+                                     "self.caps.extend": {"record_as": "extend", "doc": "put the remaining entries back"},
+                                     "self._recalc_caps": {"record_as": "recalc", "doc": "rebuild of the reverse URL index"}},
+                          may_raise={"ValueError": "", "KeyError": ""},
+                          ensures=[
+                              # the capability returned is one whose granted URL the request URL extends
+                              "implies(not is_none(result), url.startswith(result[1]))",
+                              # a one-shot capability is consumed: exactly the matched (type, granted URL) entry is removed, the rest put back
+                              "implies(ncalls('popall') == 1, ncalls('remove') == 1 and ncalls('extend') == 1 and ncalls('recalc') == 1 and "
+                              "called_with('remove', lambda arg0: arg0[1] == result[1]))",
+                              "ncalls('popall') <= 1", "implies(not consume, ncalls('popall') == 0)"],
+                          loops={0: {"inv": ["True"], "iter_post": ["ncalls('popall') == 0"]}},
+                          frame=[], **common))
+
     def twice():
         # code-free: two consecutive register_proxy_cap(name) calls return the same URL (from the contract above)
         s0, s1, s2 = (z3.Const(n, S) for n in ("s0", "s1", "s2"))
